@@ -311,6 +311,8 @@ def run(ck, F, prefix='C11'):
             ck.check(R0, contracts.short(cls), not bad, f'{cls} declares its own {f["name"]}, which is what a client holding a {contracts.short(cls)} '
                      'calls, and it does not simply hand the request on: ' + '; '.join(bad[:3]), loc=(mine[0]['loc'] if mine else F.rec[cls]['loc']))
 
+    import c05 as _c05
+    _c05.const_handles(ck, F, prefix, only={'get_qualified'})
     # who may construct
     makers = set()
     for g in F.fn.values():
